@@ -155,6 +155,18 @@ def event_histories(r, n_hist, rep_counts, viols, nontrivial, samples, root):
                 if r.random() < 0.3 and listing(d):
                     # the reader consumed one file
                     os.unlink(os.path.join(d, sorted(listing(d))[0]))
+            # shutdown with events still queued (the final flush), possibly with the directory already at its cap
+            for k in range(r.choice([1, 20, 300])):
+                sh.call_async("write_event", message="shutdown-%d" % k)
+            sh.call("ping")
+            sh.call("event_logger_stop")
+            for _ in range(12):
+                time.sleep(0.005)
+                nfiles = len(listing(d))
+                maxseen = max(maxseen, nfiles)
+                rep_counts["event_dir_observations"] = rep_counts.get("event_dir_observations", 0) + 1
+                if nfiles > cap:
+                    viols.append(["event-directory-exceeds-cap", {"cap": cap, "files": sorted(listing(d)), "when": "after stop() with queued events"}]); break
             nontrivial.append(common.sha(["event", cap, maxseen >= cap, pre]))
             if len(samples) < 6:
                 samples.append({"kind": "event directory", "cap": cap, "preexisting": min(pre, cap), "max_files_seen": maxseen})
